@@ -442,6 +442,37 @@ def make_huge_id_hr_spec(rng):
             'llq': list(plq), 'lt': list(puq), 'luq': list(puq), 'lec': lec, 'shape': 'huge_ids_hr'}
 
 
+def make_eleven_spec(rng):
+    """11-12 students and 11-12 projects with very short lists: cheap to solve, and ids whose decimal digits
+    collide when written without a separator (student 1 / project 11 against student 11 / project 1)."""
+    ns, np_ = rng.randint(11, 12), rng.randint(11, 12)
+    nl = rng.choice([np_, 3, 4])
+    na = 2 if nl == np_ else 3
+    plec = list(range(1, np_ + 1)) if na == 2 else [rng.randint(1, nl) for _ in range(np_)]
+    st = []
+    for s_ in range(1, ns + 1):
+        pool = [1, 11, np_, 2, 10]
+        k = rng.randint(1, 2)
+        st.append([[p] for p in rng.sample(sorted({p for p in pool if p <= np_}), k)])
+    st[0] = [[11], [1]] if rng.random() < 0.5 else [[11]]
+    st[10] = [[1], [11]] if rng.random() < 0.5 else [[1]]
+    puq = [rng.choice([1, 2, 3]) for _ in range(np_)]
+    plq = [0] * np_
+    if na == 2:
+        llq, lt, luq = list(plq), list(puq), list(puq)
+    else:
+        luq = [rng.choice([2, 3, 5]) for _ in range(nl)]
+        lt = [rng.randint(0, u) for u in luq]
+        llq = [0] * nl
+    lec = []
+    for k in range(nl):
+        studs = [x + 1 for x in range(ns) if any(plec[p - 1] == k + 1 for g in st[x] for p in g)]
+        rng.shuffle(studs)
+        lec.append(random_groups(rng, studs, rng.choice(['none', 'low', 'all'])))
+    return {'na': na, 'ns': ns, 'np': np_, 'nl': nl, 'st': st, 'plq': plq, 'puq': puq, 'plec': plec,
+            'llq': llq, 'lt': lt, 'luq': luq, 'lec': lec, 'shape': 'eleven'}
+
+
 def make_zero_student_spec(rng):
     """An instance whose header announces no students at all (projects and lecturers exist)."""
     na = rng.choice([2, 3])
